@@ -791,7 +791,8 @@ def stream_cands(ctx, S, depth, tail):
     c.append((w('chain', 2.5), lambda: (Act('>@>', 'method', 'chain', [stream_operand(ctx, T)]), S)))
     if small:
         c.append((w('enumerate', 1.5), lambda: (raw('|n>', '', '.enumerate()'), Str(Pair(USIZE, T)))))
-        c.append((w('zip', 2), lambda: (Act('>^>', 'method', 'zip', [stream_operand(ctx, TOK)]), Str(Pair(T, TOK)))))
+        # StreamExt::zip polls both streams in one poll: which items are consumed before the shorter stream ends depends on
+        # readiness, so its event set is legitimately schedule dependent; not generated (Iterator zip is)
     # terminal (future-producing) combinators
     c.append((w('collect', 3), lambda: (raw('=>[]', 'Vec<_>', '.collect::<Vec<_>>()'), Vec(T))))
     c.append((w('fold', 2.5), lambda: (Act('^@', 'method', 'fold', [value_operand(ctx, TOK), gate_cb(ctx, 'af2', args=[TOK, T])]), TOK)))
